@@ -40,6 +40,8 @@ EffBlocking(op) ==
     IF op.op = "with_enter" THEN TRUE
     ELSE IF op.timeout = -2 THEN op.blocking
     ELSE (IF op.timeout < 0 THEN op.blocking ELSE TRUE)
+\* the poll interval in force: the with-statement cannot pass one (default 50 ms), acquire / acquire_ctx get cfg.poll
+PollOf(st, op) == IF op.op = "with_enter" THEN 50 ELSE st.cfg.poll
 Mode(st, op) == IF ~EffBlocking(op) THEN "nb"
                 ELSE IF EffTimeout(st, op) < 0 THEN "block" ELSE "timed"
 
@@ -93,9 +95,9 @@ Apply(st, op) ==
             \* sequential histories: the in-process stage waits only if it is going to fail (then it takes its
             \* whole time-out); otherwise only the OS stage waits: its time-out plus one poll interval
             dmax == IF mode = "nb" THEN 0
-                    ELSE IF ok THEN (IF retry THEN st.cfg.poll ELSE 0)
+                    ELSE IF ok THEN (IF retry THEN PollOf(st, op) ELSE 0)
                     ELSE IF ~Stage1Ok(st, op) THEN tmo
-                    ELSE tmo + st.cfg.poll
+                    ELSE tmo + PollOf(st, op)
             dmin == IF ok \/ mode = "nb" THEN 0 ELSE tmo
         IN [st |-> st2, res |-> res, dmin |-> dmin, dmax |-> dmax]
     ELSE IF op.op \in {"release", "release_force"} THEN
